@@ -1019,3 +1019,265 @@ func TestKnown_C14_ForwarderLeaksAfterStop(t *testing.T) {
 		t.Fatalf("VIOLATION-REPRODUCED: %d goroutines before, %d after %d watches that were opened, left unread and stopped", before, after, n)
 	}
 }
+
+// C07.validation_outlasts_a_fault_free_read: the periodic validation gave its read a fixed two seconds, whatever the
+// heartbeat interval. With H > 4 s a store that answers every operation within H/2 (fault-free in the sense of C07)
+// but slower than two seconds made every periodic validation time out, and the second time-out in a row demoted the
+// healthy leader (pointed out by a sub-agent while seeding C07). H = 4.4 s, reads take 2.1 s (< H/2 = 2.2 s).
+func TestKnown_C07_SlowButTimelyReadsDemoteAHealthyLeader(t *testing.T) {
+	cfg := kCfg()
+	cfg.HeartbeatInterval = 4400 * time.Millisecond
+	cfg.TTL = 14 * time.Second
+	cfg.ValidationInterval = 4400 * time.Millisecond
+	e, kv := kElection(t, cfg)
+	var demoted atomic.Int32
+	e.OnDemote(func() { demoted.Add(1) })
+	kLeader(t, e)
+	defer e.Stop()
+	ent, err := kv.Get("g")
+	if err != nil {
+		t.Fatal(err)
+	}
+	rec := append([]byte(nil), ent.Value()...)
+	kv.SetGetFunc(func(key string) (natsmock.Entry, error) {
+		time.Sleep(2100 * time.Millisecond) // within half a heartbeat interval
+		return kEntry{v: rec, rev: ent.Revision()}, nil
+	})
+	deadline := time.Now().Add(12 * time.Second) // two validation ticks (4.4 s, 8.8 s) and their reads
+	for time.Now().Before(deadline) {
+		if !e.IsLeader() || demoted.Load() > 0 {
+			t.Fatalf("VIOLATION-REPRODUCED: healthy leader (H=4.4s, every read answered after 2.1s < H/2) demoted after %v: IsLeader=%v demotions=%d",
+				time.Since(deadline.Add(-12*time.Second)).Round(100*time.Millisecond), e.IsLeader(), demoted.Load())
+		}
+		time.Sleep(100 * time.Millisecond)
+	}
+}
+
+// C02.every_tick_of_a_leader_refreshes: a tick on which the health check failed skipped the refresh while the instance
+// went on reporting leadership; with MaxConsecutiveFailures x H above the TTL (nothing validates the two against each
+// other) the record lapsed under a claiming leader and a standby was promoted next to it. H = 600 ms, TTL = 2.1 s,
+// threshold 5: the record written at promotion expires after 2.1 s, the unhealthy leader lets go only at 3.0 s
+// (pointed out by a sub-agent while seeding C02; store with real expiry taken from its demonstration).
+func TestKnown_C02_UnhealthyLeaderOutlivesItsLease(t *testing.T) {
+	const (
+		hb  = 600 * time.Millisecond
+		ttl = 3*hb + hb/2
+	)
+	store := newKLsStore()
+	mk := func(id string, hc HealthChecker) *kvElection {
+		e, err := newKVElection(&kLsProvider{kv: &kLsKV{s: store, bucket: ttl}}, ElectionConfig{
+			Bucket: "b", Group: "g", InstanceID: id, TTL: ttl, HeartbeatInterval: hb,
+			ValidationInterval: 30 * time.Second, HealthChecker: hc, MaxConsecutiveFailures: 5,
+		})
+		if err != nil {
+			t.Fatal(err)
+		}
+		return e
+	}
+	a := mk("A", kLsSick{})
+	b := mk("B", nil)
+	if err := a.Start(context.Background()); err != nil {
+		t.Fatal(err)
+	}
+	defer func() { _ = a.Stop() }()
+	WaitForLeader(t, a, true, 2*time.Second)
+	if err := b.Start(context.Background()); err != nil {
+		t.Fatal(err)
+	}
+	defer func() { _ = b.Stop() }()
+	both := 0
+	deadline := time.Now().Add(ttl + 3*hb)
+	for time.Now().Before(deadline) {
+		if a.IsLeader() && b.IsLeader() {
+			both++
+		}
+		time.Sleep(time.Millisecond)
+	}
+	if both > 0 {
+		t.Fatalf("VIOLATION-REPRODUCED: A (unhealthy, threshold 5, never refreshing) and B reported IsLeader()==true together on %d samples one millisecond apart", both)
+	}
+}
+
+type kLsSick struct{}
+
+func (kLsSick) Check(ctx context.Context) bool { return false }
+
+// a small lease store: the record lives for the TTL after every write, expiry notifies the watchers
+type kLsRec struct {
+	val     []byte
+	rev     uint64
+	expires time.Time
+}
+
+type kLsStore struct {
+	mu       sync.Mutex
+	rec      *kLsRec
+	rev      uint64
+	watchers map[*kLsWatcher]struct{}
+}
+
+func newKLsStore() *kLsStore {
+	return &kLsStore{watchers: make(map[*kLsWatcher]struct{})}
+}
+
+// live returns the record if it has not expired (caller holds mu).
+func (s *kLsStore) live(now time.Time) *kLsRec {
+	if s.rec != nil && !now.Before(s.rec.expires) {
+		s.rec = nil
+		s.broadcast(nil)
+	}
+	return s.rec
+}
+
+func (s *kLsStore) broadcast(e Entry) {
+	for w := range s.watchers {
+		select {
+		case w.ch <- e:
+		default:
+		}
+	}
+}
+
+func (s *kLsStore) armExpiry(rev uint64, ttl time.Duration) {
+	time.AfterFunc(ttl+time.Millisecond, func() {
+		s.mu.Lock()
+		defer s.mu.Unlock()
+		if s.rec != nil && s.rec.rev == rev {
+			s.live(time.Now())
+		}
+	})
+}
+
+type kLsEntry struct {
+	key string
+	val []byte
+	rev uint64
+}
+
+func (e *kLsEntry) Key() string      { return e.key }
+func (e *kLsEntry) Value() []byte    { return e.val }
+func (e *kLsEntry) Revision() uint64 { return e.rev }
+
+type kLsWatcher struct {
+	s    *kLsStore
+	ch   chan Entry
+	once sync.Once
+}
+
+func (w *kLsWatcher) Updates() <-chan Entry { return w.ch }
+func (w *kLsWatcher) Stop() {
+	w.once.Do(func() {
+		w.s.mu.Lock()
+		delete(w.s.watchers, w)
+		w.s.mu.Unlock()
+	})
+}
+
+// kLsKV is one client's handle on the store. latency(op, n) is the time the
+// n-th operation of that kind takes to reach the store (the answer comes back
+// at once after that).
+type kLsKV struct {
+	s       *kLsStore
+	bucket  time.Duration // lease used when a write carries none
+	latency func(op string, n int) time.Duration
+	nUpdate atomic.Int32
+	nCreate atomic.Int32
+}
+
+func kLsLease(def time.Duration, opts []interface{}) time.Duration {
+	for _, o := range opts {
+		if d, ok := o.(time.Duration); ok && d > 0 {
+			return d
+		}
+	}
+	return def
+}
+
+func (k *kLsKV) wait(op string, n int) {
+	if k.latency != nil {
+		if d := k.latency(op, n); d > 0 {
+			time.Sleep(d)
+		}
+	}
+}
+
+func (k *kLsKV) Create(key string, value []byte, opts ...interface{}) (uint64, error) {
+	k.wait("create", int(k.nCreate.Add(1)))
+	s := k.s
+	s.mu.Lock()
+	defer s.mu.Unlock()
+	now := time.Now()
+	if s.live(now) != nil {
+		return 0, errors.New("key already exists")
+	}
+	ttl := kLsLease(k.bucket, opts)
+	s.rev++
+	s.rec = &kLsRec{val: value, rev: s.rev, expires: now.Add(ttl)}
+	s.armExpiry(s.rev, ttl)
+	s.broadcast(&kLsEntry{key: key, val: value, rev: s.rev})
+	return s.rev, nil
+}
+
+func (k *kLsKV) Update(key string, value []byte, rev uint64, opts ...interface{}) (uint64, error) {
+	k.wait("update", int(k.nUpdate.Add(1)))
+	s := k.s
+	s.mu.Lock()
+	defer s.mu.Unlock()
+	now := time.Now()
+	rec := s.live(now)
+	if rec == nil {
+		return 0, errors.New("key not found")
+	}
+	if rec.rev != rev {
+		return 0, errors.New("revision mismatch")
+	}
+	ttl := kLsLease(k.bucket, opts)
+	s.rev++
+	s.rec = &kLsRec{val: value, rev: s.rev, expires: now.Add(ttl)}
+	s.armExpiry(s.rev, ttl)
+	s.broadcast(&kLsEntry{key: key, val: value, rev: s.rev})
+	return s.rev, nil
+}
+
+func (k *kLsKV) Get(key string) (Entry, error) {
+	s := k.s
+	s.mu.Lock()
+	defer s.mu.Unlock()
+	rec := s.live(time.Now())
+	if rec == nil {
+		return nil, errors.New("key not found")
+	}
+	return &kLsEntry{key: key, val: rec.val, rev: rec.rev}, nil
+}
+
+func (k *kLsKV) Delete(key string) error {
+	s := k.s
+	s.mu.Lock()
+	defer s.mu.Unlock()
+	if s.live(time.Now()) == nil {
+		return errors.New("key not found")
+	}
+	s.rec = nil
+	s.broadcast(nil)
+	return nil
+}
+
+func (k *kLsKV) Watch(key string, opts ...interface{}) (Watcher, error) {
+	s := k.s
+	s.mu.Lock()
+	defer s.mu.Unlock()
+	w := &kLsWatcher{s: s, ch: make(chan Entry, 64)}
+	s.watchers[w] = struct{}{}
+	if rec := s.live(time.Now()); rec != nil {
+		w.ch <- &kLsEntry{key: key, val: rec.val, rev: rec.rev}
+	}
+	return w, nil
+}
+
+type kLsProvider struct{ kv KeyValue }
+
+func (p *kLsProvider) JetStream() (JetStreamContext, error) { return p, nil }
+func (p *kLsProvider) KeyValue(bucket string) (KeyValue, error) {
+	return p.kv, nil
+}
+
